@@ -4,7 +4,7 @@ from ..build import AnalysisBroken
 from ..effects import top_function
 from . import C07
 
-UNITS = ['client/QXmppAtmManager.cpp', 'client/QXmppTrustManager.cpp']
+UNITS = ['client/QXmppAtmManager.cpp', 'client/QXmppTrustManager.cpp', 'client/QXmppAtmTrustMemoryStorage.cpp']
 ATM = 'QXmppAtmManager'
 
 
@@ -37,6 +37,7 @@ def run(prog, run):
     r2(prog, run)
     r3(prog, run)
     r4(prog, run)
+    r5(prog, run)
 
 
 def r1(prog, run, hm):
@@ -147,13 +148,22 @@ def r1(prog, run, hm):
                       'the sender-scope / sender-key tests no longer compare (sender bare JID, own bare JID), (sender bare JID, key owner JID) and '
                       '(delivered trust level, Authenticated): found %s' % sorted(kinds))
         return
+    # the sender-key trust level is a finite domain: the decision code is evaluated once per level (Authenticated is the only one that applies; for every other
+    # level - distrusted ones included - a qualified sender's decisions are held back, not dropped)
+    levels = [e['name'] for e in prog.enum('QXmpp::TrustLevel')['enumerators']]
+    if 'Authenticated' not in levels:
+        raise AnalysisBroken('C18.R1: QXmpp::TrustLevel::Authenticated not found')
     for own in (True, False):
         for owner in (True, False):
-            for auth in (True, False):
+            for level in levels:
+                auth = level == 'Authenticated'
                 run.instance(rid)
                 vals = {'own': own, 'owner': owner, 'auth': auth}
 
-                def custom(f, nid, st, vals=vals):
+                def custom(f, nid, st, vals=vals, level=level):
+                    n = f.nodes[nid]
+                    if f.id == cont.id and n['k'] == 'var' and n.get('vk') == 'param' and n.get('pidx') == 0:
+                        return (('enum', 'QXmpp::TrustLevel::' + level),)
                     c = classify_cmp(f, nid)
                     if c:
                         return ((c[1] == '==') == vals[c[0]],)
@@ -167,15 +177,15 @@ def r1(prog, run, hm):
                     want = {'apply:authenticate', 'apply:distrust'}
                 elif qualified:
                     want = {'postpone'}
-                site = '%s own=%s owner=%s auth=%s' % (cont.loc(), own, owner, auth)
+                site = '%s own=%s owner=%s level=%s' % (cont.loc(), own, owner, level)
                 if reach == want:
-                    run.ok(rid, site, 'decisions %s' % (sorted(x.split(':')[0] for x in want) or ['ignored']))
+                    run.ok(rid, site, 'decisions %s' % (sorted(x.split(':')[0] for x in want) or ['ignored']), nontrivial=(level in ('Authenticated', 'Undecided')))
                 else:
                     extra = reach - want
                     miss = want - reach
-                    run.violation(rid, 'handleMessage#own=%s,owner=%s,auth=%s' % (own, owner, auth), site,
-                                  'for sender (own account=%s, key owner=%s, key authenticated=%s): %s%s' %
-                                  (own, owner, auth, ('does %s although it must not' % sorted(extra)) if extra else '',
+                    run.violation(rid, 'handleMessage#own=%s,owner=%s,auth=%s%s' % (own, owner, auth, '' if level in ('Authenticated', 'Undecided') else ',level=' + level), site,
+                                  'for sender (own account=%s, key owner=%s, sender key %s): %s%s' %
+                                  (own, owner, level, ('does %s although it must not' % sorted(extra)) if extra else '',
                                    (' no longer does %s' % sorted(miss)) if miss else ''))
     # operands: senderJid is the bare JID of message.from(); the trust level is asked for (encryption, senderJid, senderKey)
     run.instance(rid)
@@ -335,3 +345,79 @@ def r4(prog, run):
                               'promise "%s" is %s on some path of %s' % (name, problems[0][0], f.display()[-70:]), cfgx.describe_path(f, problems[0][1]))
             else:
                 run.ok(rid, f.loc(), '%s: promise finished or handed on' % f.display()[-60:], nontrivial=npaths > 1)
+
+
+def r5(prog, run):
+    rid = run.rule('C18.R5', 'a held-back decision is identified by (encryption, key id, key owner, sender key): the storage overwrites the decision of an existing entry only where all '
+                             'identifying members of the entry have been compared with the new decision (directly, or through the entry type\'s operator==); otherwise decisions about '
+                             'the same key id for two owners (or from two senders) merge', floor=1)
+    recs = [r for q, r in prog.records.items() if q.endswith('UnprocessedKey') and 'QXmppAtmTrustMemoryStorage.cpp' in (r.get('file') or '')]
+    if not recs:
+        raise AnalysisBroken('C18.R5: the record of a held-back decision (UnprocessedKey) not found in QXmppAtmTrustMemoryStorage.cpp')
+    rec = recs[0]
+    payload = [fl for fl in rec['fields'] if fl.get('t') in ('bool', 'const bool')]
+    ident = {fl.get('qname') or (rec['qname'] + '::' + fl['name']) for fl in rec['fields'] if fl not in payload}
+    if len(payload) != 1 or len(ident) < 3:
+        raise AnalysisBroken('C18.R5: unexpected shape of %s: %s' % (rec['qname'], [(fl['name'], fl.get('t')) for fl in rec['fields']]))
+    pq = payload[0].get('qname') or (rec['qname'] + '::' + payload[0]['name'])
+
+    def op_eq_fields():
+        """identifying members compared by the record's operator==, if it has one"""
+        out = set()
+        for g in prog.fns.values():
+            if g.qname == rec['qname'] + '::operator==' or (g.name == 'operator==' and rec['qname'].split('::')[-1] in ' '.join(p.get('t') or '' for p in g.params) and g.file == rec.get('file')):
+                for _, rn in g.returns():
+                    if 'e' not in rn:
+                        continue
+                    stack = [rn['e']]
+                    while stack:
+                        e = stack.pop()
+                        bo = g.binop(g.skip(e))
+                        if bo and bo[0] == '&&':
+                            stack += [bo[1], bo[2]]
+                        elif bo and bo[0] == '==':
+                            for x in (bo[1], bo[2]):
+                                m = g.nodes[g.skip(x)]
+                                if m['k'] == 'mem' and m.get('f') in ident:
+                                    out.add(m['f'])
+                        elif g.nodes[g.skip(e)]['k'] == 'call' and 'tie' in g.cname(g.nodes[g.skip(e)]):
+                            pass
+        return out
+    seen = 0
+    for f in prog.fns.values():
+        if not f.file.endswith('QXmppAtmTrustMemoryStorage.cpp'):
+            continue
+        for i, n in f.all_nodes('assign'):
+            l = f.nodes[f.skip(n['l'])]
+            if l['k'] != 'mem' or l.get('f') != pq:
+                continue
+            base = f.nodes[f.skip(l['base'])] if l.get('base') is not None else {}
+            if base.get('k') == 'var' and base.get('vk') == 'local' and not (f.defs().get(base['decl']) or {}).get('ref'):
+                continue                      # a new entry being filled in
+            seen += 1
+            run.instance(rid)
+            have = set()
+            for c, pol in f.atomic_assertions_at(i):
+                bo = f.binop(f.skip(c))
+                if bo and ((bo[0] == '==' and pol is True) or (bo[0] == '!=' and pol is False)):
+                    for x in (bo[1], bo[2]):
+                        m = f.nodes[f.skip(x)]
+                        if m['k'] == 'mem' and m.get('f') in ident:
+                            have.add(m['f'])
+                # found through find(key, value) / std::find: the entry type's operator== decides
+                for j in f.walk(c):
+                    m = f.nodes[j]
+                    if m['k'] == 'var' and m.get('vk') == 'local' and f.single_def(m['decl']) is not None:
+                        m = f.nodes[f.skip(f.single_def(m['decl']))]       # if (auto it = map.find(k, v); it != end)
+                    if m['k'] == 'call' and (f.sym(m) or {}).get('name') in ('find', 'constFind', 'contains', 'indexOf') and len([a for a in m.get('args', []) if f.nodes[a]['k'] != 'defarg']) >= 2:
+                        have |= op_eq_fields()
+            miss = ident - have
+            if miss:
+                run.violation(rid, 'postponed-decisions#entry-identity#%s' % '+'.join(sorted(x.split('::')[-1] for x in miss)), f.loc(i),
+                              '%s overwrites the decision of a stored entry that was matched without comparing %s: decisions about the same key id for different %s are merged into one '
+                              'entry (the first owner\'s entry gets the second owner\'s decision, the second owner\'s is lost)'
+                              % (top_function(prog, f).display()[:60], ', '.join(sorted(x.split('::')[-1] for x in miss)), '/'.join(sorted(x.split('::')[-1] for x in miss))))
+            else:
+                run.ok(rid, f.loc(i), 'an entry is updated only after %s were compared' % ', '.join(sorted(x.split('::')[-1] for x in ident)))
+    if not seen:
+        raise AnalysisBroken('C18.R5: no update of a stored held-back decision found in QXmppAtmTrustMemoryStorage.cpp')
